@@ -26,6 +26,7 @@ impl Bitstr {
 //@use bitstr.fns Bitstr::bits_range assumed
 //@use bitstr.fns Bitstr::append assumed
 //@use bitstr.fns Bitstr::invert assumed
+//@use bitstr.fns Bitstr::slice assumed
 //@use bitstr.fns Bitstr::to_hex_string assumed
 //@use bitstr.fns Bitstr::eq_with assumed
 //@use bitstr.fns Bitstr::iter8 assumed
